@@ -572,6 +572,10 @@ def hp_drift(scripts, traces):
 
 def run_parser(ctx, fam):
     t = ctx.thorough()
+    extra = {}
+    if ctx.prop == 'C15':
+        log('[C15] unbounded arithmetic of Write / Parse / Shrink / Reset (Apalache, inductive invariant of ParserRetain.tla)')
+        extra['apalache_inductive_invariant'] = vlib.apalache_inductive(ctx, 'ParserRetain.tla')
     log('[%s] design model check (ParserBuffer design + abstract parser refine the ParserSM envelope)' % ctx.prop)
     vlib.tlc_mc(ctx, 'ParserBufMC.tla', 'ParserBufMC_T.cfg' if t else 'ParserBufMC.cfg', workers='16')
     scripts = []
@@ -625,7 +629,7 @@ def run_parser(ctx, fam):
         scripts += vlib.go_gen(ctx, gen, n * scale, ctx.seed)
     scripts += corpus_scripts('parser')
     env = {'VERIF_C11': '1' if ctx.prop == 'C11' else '0', 'VERIF_C12': '1' if ctx.prop == 'C12' else '0'}
-    return finish(ctx, fam, scripts, 'Parser_Trace', parser_mutants, parser_features, extra_env=env)
+    return finish(ctx, fam, scripts, 'Parser_Trace', parser_mutants, parser_features, extra_env=env, extra_cov=extra)
 
 
 PARSER_ASSUME = [
